@@ -76,4 +76,15 @@ def c11(prop, tier, res, replay=None):
         "the endpoint a request addresses is the path.Clean-ed URL path minus the operation (stdlib path.Clean is trusted)"], replay)
 
 
-TABLE = {"C11": c11, "C06": c06, "C16": c16, "C10": c10, "C08": c08, "C09": c09, "C17": c17}
+MCP = dict(sub="mcp", mode="mcp", family="mcp", shards=lambda tier: 3,
+           args=lambda tier, sd, sh: ["-roles", ["read", "operate", "admin"][sh]],
+           key_fields=["k", "tool", "variant", "role", "mut", "rt", "principal"])
+
+
+def c20(prop, tier, res, replay=None):
+    return pure.check_cases(prop, tier, res, [MCP], [
+        "the gating tables are REGENERATED from internal/mcp/server.go (go/ast) and internal/mcp/spec.md on every run; the theorems are re-checked over them by lake build",
+        "the real server is enumerated exhaustively through JSON-RPC framing: 31 tools + 3 unknown names x 3 roles x 2 x 2 flags x principal present/absent x 4 argument shapes, plus tools/list per combination; process-control tools are only driven to their refusal paths (foreign pid_file) - what a successful start/stop does to the OS is not exercised"], replay)
+
+
+TABLE = {"C20": c20, "C11": c11, "C06": c06, "C16": c16, "C10": c10, "C08": c08, "C09": c09, "C17": c17}
